@@ -297,6 +297,12 @@ def exec_for(ex, s: ast.For, st: State) -> list[State]:
     if spec.stable_iter:
         if kind == 'list':
             exit_st.assume(done == h_entry.bagof(cont))
+            # the same fact in quantified form, triggered by membership terms of the iterated list (gives E-matching the terms
+            # done[v] on which invariants over the processed elements are triggered)
+            pats = [h_entry.bag(cont, dv)]
+            if ex.h0 is not None and not z3.eq(ex.h0.arr['L_bag'], h_entry.arr['L_bag']):
+                pats.append(ex.h0.bag(cont, dv))        # contracts usually speak about membership in the pre-state
+            exit_st.assume(z3.ForAll([dv], z3.Select(done, dv) == h_entry.bag(cont, dv), patterns=pats))
         else:
             kq = z3.Const('k!dx', Val)
             exit_st.assume(z3.ForAll([kq], z3.Select(done, kq) == z3.If(h_entry.has(cont, kq), 1, 0),
